@@ -67,4 +67,17 @@ theorem trapzW_pos {n : ℕ} {t : ℕ → ℚ} (hmono : ∀ i j, i < j → t i <
   have : t (j - 1) < t (min (j + 1) (n - 1)) := hmono _ _ (by omega)
   linarith
 
+/-! The three shapes of a trapezoid weight on `m + 2` points (no `min`, no truncated subtraction). -/
+theorem trapzW_first (m : ℕ) (x : ℕ → ℚ) : trapzW (m + 2) x 0 = (x 1 - x 0) / 2 := by
+  have : min (0 + 1) (m + 2 - 1) = 1 := by omega
+  unfold trapzW; rw [this]
+
+theorem trapzW_mid (m k : ℕ) (x : ℕ → ℚ) (hk : k < m) : trapzW (m + 2) x (k + 1) = (x (k + 2) - x k) / 2 := by
+  have : min (k + 1 + 1) (m + 2 - 1) = k + 2 := by omega
+  unfold trapzW; rw [this]; simp
+
+theorem trapzW_last (m : ℕ) (x : ℕ → ℚ) : trapzW (m + 2) x (m + 1) = (x (m + 1) - x m) / 2 := by
+  have : min (m + 1 + 1) (m + 2 - 1) = m + 1 := by omega
+  unfold trapzW; rw [this]; simp
+
 end FDA
